@@ -337,6 +337,78 @@ func (c *Ctx) backlogBound() {
 		okLoop = init && bound && same
 	}
 	c.verdict(okLoop, c.nm(fn)+" | backlog = connected(header@i, i) for i = height+1 .. filterHeaderTip", c.P.Pos(fn.Pos()), "loop bounds and payload as tabled", "the backlog loop does not cover exactly height+1 .. filterHeaderTip with matching header and height")
+	// the bound is the filter header tip and nothing else: a bound merged
+	// with another quantity (the block header tip, say) can lie above what
+	// has been committed and announced
+	tip := bm("filterHeaderTip")
+	var onlyTip func(v ssa.Value, d int) bool
+	onlyTip = func(v ssa.Value, d int) bool {
+		if d > 6 {
+			return false
+		}
+		switch x := v.(type) {
+		case *ssa.Phi:
+			for _, e := range x.Edges {
+				if !onlyTip(e, d+1) {
+					return false
+				}
+			}
+			return len(x.Edges) > 0
+		case *ssa.UnOp:
+			if x.Op == token.MUL {
+				fa, ok := x.X.(*ssa.FieldAddr)
+				return ok && ir.FieldOfAddr(fa) == tip
+			}
+		case *ssa.Convert:
+			return onlyTip(x.X, d+1)
+		case *ssa.ChangeType:
+			return onlyTip(x.X, d+1)
+		}
+		return false
+	}
+	for _, f := range find(fn, callTo(fetch)) {
+		h := ir.LoopHeaderOf(f.Block())
+		construct := c.nm(fn) + " | the backlog is complete up to the filter header tip, or refused"
+		if h == nil {
+			c.fail(construct, c.at(f), "the backlog headers are not fetched in a loop")
+			continue
+		}
+		lf := loopFormOf(h)
+		if lf.problem != "" {
+			c.fail(construct, c.at(f), lf.problem)
+			continue
+		}
+		var bad []string
+		if !onlyTip(lf.bound, 0) {
+			bad = append(bad, "the bound of the backlog loop at "+c.at(lf.test)+" is not b.filterHeaderTip alone")
+		}
+		for _, e := range ir.LoopExits(h) {
+			if e == lf.exit {
+				continue
+			}
+			ir.WalkEdge(e, nil, func(in ssa.Instruction) bool {
+				if r, ok := in.(*ssa.Return); ok {
+					if errSuccess(r) {
+						bad = append(bad, fmt.Sprintf("the backlog loop can be left early at %s and the call still succeeds (return at %s): the subscriber is registered with a backlog that stops short of the tip, and the next live event is about a block it was never told of", c.at(e.From.Instrs[len(e.From.Instrs)-1]), c.at(r)))
+					}
+					return false
+				}
+				return true
+			})
+		}
+		// the height handed back with a backlog is the same bound
+		for _, r := range find(fn, isExit) {
+			ret := r.(*ssa.Return)
+			if !errSuccess(ret) || len(ret.Results) != 3 {
+				continue
+			}
+			if !onlyTip(ir.RetVal(ret, 1), 0) {
+				bad = append(bad, "the best height returned at "+c.at(r)+" is not b.filterHeaderTip as read at the start")
+			}
+		}
+		sort.Strings(bad)
+		c.verdict(len(bad) == 0, construct, c.at(f), "bound = filterHeaderTip alone; every early way out of the loop is an error", join(uniq(bad)), c.at(lf.test))
+	}
 }
 
 // ---- event emission points ----
